@@ -31,6 +31,7 @@ Template directives (all start with `//@@`; payloads in <<< >>> may span lines):
   //@@ CUT <<<start>>> <<<end>>>          drop the source text from `start` up to (not including) `end` -- except its exits
                                          (rule R13: each `return E;` in it is kept as `if cut_region_exit() { return E; }`);
                                          the number of dropped lines is reported in the evidence
+  //@@ LOOPBODY n <<<text>>>             insert ghost text at the START of the body of the n-th loop (runs on every iteration)
   //@@ BEFOREEACH <<<anchor>>> <<<text>>>  insert ghost text before EVERY occurrence of anchor (none is fine)
   //@@ CUTBLOCK <<<anchor>>> <<<text>>>   the contents of the first `{ .. }` block after `anchor` (brace-matched)
                                          are replaced by `text`; dropped lines are reported in the evidence
@@ -542,6 +543,14 @@ def transform_body(body, dirs, log):
             k, br = lp[n]
             edits.append((br, br, '\n' + inv + '\n'))
             log['R5 loop invariant'] = log.get('R5 loop invariant', 0) + 1
+        elif kind == 'LOOPBODY':
+            n, text = d[1], d[2]
+            lp = find_loops(body)
+            if n >= len(lp):
+                raise LostAnchor(f'loop #{n} not found (have {len(lp)})')
+            k, br = lp[n]
+            edits.append((br + 1, br + 1, ' ' + text))
+            log['R5 proof insert'] = log.get('R5 proof insert', 0) + 1
         elif kind == 'SUB':
             cnt, old, new = d[1], d[2], d[3]
             pos = [m.start() for m in re.finditer(re.escape(old), body)]
@@ -769,7 +778,7 @@ def assemble(template_path, repo):
                         sig = p[0]
                     elif kind == 'SELF':
                         dirs.append(('SELF', toks[2]))
-                    elif kind in ('CLOSURE', 'LOOP'):
+                    elif kind in ('CLOSURE', 'LOOP', 'LOOPBODY'):
                         dirs.append((kind, int(toks[2]), p[0]))
                     elif kind == 'SUB':
                         dirs.append(('SUB', -1 if toks[2] == '*' else int(toks[2]), p[0], p[1]))   # `*`: every occurrence, none is fine
